@@ -86,9 +86,10 @@ def main(tier, seed):
         metric = rng.choice(["chi_squared", "canberra", "squared", "bray_curtis", "log_squared_euclidean", "euclidean", "jaccard", "soergel"])
         n, dim = rng.randint(6, 10), rng.randint(1, 3)
         X = np.array([[rng.choice([0.0, rng.uniform(0.1, 5), float(rng.randint(0, 3))]) for _ in range(dim)] for _ in range(n)])
-        Y = np.array([j % 2 for j in range(n)])
+        base = (i // 4) % 2          # half of the runs use one-based labels
+        Y = np.array([base + j % 2 for j in range(n)])
         Xq = np.array([[rng.choice([0.0, rng.uniform(0.1, 5)]) for _ in range(dim)] for _ in range(4)])
-        Yq = np.array([0, 1, 0, 1])
+        Yq = np.array([base, base + 1, base, base + 1])
         readonly = (i % 8) >= 4
         arrays = dict(X=X, Y=Y, Xq=Xq, Yq=Yq)
         before = {k: v.tobytes() for k, v in arrays.items()}
